@@ -187,7 +187,18 @@ func sink(seq int64, ev string, kv []any) {
 			npers++
 			persistOffsets = append(persistOffsets, int(pendOff))
 			persistTimes = append(persistTimes, t)
-			tr.Emit(vh.E("Persist", "off", int(pendOff), "t", int(t-base), "dig", dig, "agree", agree))
+			// the same digest from the state record just written, read back the way a reopen reads it
+			disk := ""
+			func() {
+				defer func() {
+					if e := recover(); e != nil {
+						disk = fmt.Sprint("unreadable: ", e)
+					}
+				}()
+				ds := db19.ReadState(db.Store, pendOff)
+				disk, _ = digestMeta(db.Store, ds.Meta, nil)
+			}()
+			tr.Emit(vh.E("Persist", "off", int(pendOff), "t", int(t-base), "dig", dig, "agree", agree, "disk", disk))
 		}
 		pend = ""
 	}
